@@ -146,6 +146,11 @@ def main():
             for ok, nm in checks:
                 if not ok:
                     fails.append(f"LogRepFloat identity failed: {nm}")
+            acc0, w0 = L(0.0), L(1.0)
+            acc0 += w0
+            acc0 += L(5.0)
+            if abs(w0.val - 1.0) > 1e-15 or abs(acc0.val - 6.0) > 1e-12:
+                fails.append(f"acc=0; acc+=w0; acc+=5 changed the operand w0 to {w0.val} (accumulator aliases its first summand) / acc={acc0.val}")
             acc = L(0.0)
             acc += 0
             acc += L(0.0)
